@@ -2,6 +2,203 @@
 
 package mimetype
 
-func (g *vfGen) runMore5(slice string) bool { return false }
+import (
+	vtar "archive/tar"
+	"bytes"
+	"fmt"
+	"strconv"
+	"time"
 
-func vfExecMore5(f []string, op string) (string, bool) { return "", false }
+	"github.com/gabriel-vasile/mimetype/internal/magic"
+)
+
+func vfExecMore5(f []string, op string) (string, bool) {
+	switch f[0] {
+	case "tar": // tar ok|bad lim hex
+		lim64, _ := strconv.ParseUint(f[2], 10, 32)
+		data := vfUnhex(f[3])
+		SetLimit(uint32(lim64))
+		in, ibuf := vfExact(data)
+		m := Detect(in)
+		m2 := Detect(in)
+		flags := ""
+		if vfChain(m2) != vfChain(m) {
+			flags += " REPEAT-DIFFERS"
+		}
+		if !ibuf.intact() {
+			flags += " MODIFIED"
+		}
+		hdr, _ := vfExact(vfHeader(data, uint32(lim64)))
+		// does a higher-priority root format accept the header?
+		earlier := "n"
+		for _, c := range root.children {
+			if c.mime == "application/x-tar" {
+				break
+			}
+			if vfSafeDet(c.detector, hdr, uint32(lim64)) == "T" {
+				earlier = "y"
+				break
+			}
+		}
+		return fmt.Sprintf("%s => %s %s %s%s", op, vfChain(m), vfSafeDet(magic.Tar, hdr, uint32(lim64)), earlier, flags), true
+	}
+	return vfExecMore6(f, op)
+}
+
+func (g *vfGen) runMore5(slice string) bool {
+	switch slice {
+	case "C18":
+		g.genC18()
+	default:
+		return g.runMore6(slice)
+	}
+	return true
+}
+
+func (g *vfGen) tarArchive() []byte {
+	var buf bytes.Buffer
+	w := vtar.NewWriter(&buf)
+	formats := []vtar.Format{vtar.FormatUSTAR, vtar.FormatPAX, vtar.FormatGNU, vtar.FormatUnknown}
+	n := 1 + g.rng.Intn(3)
+	members := 0
+	for i := 0; i < n; i++ {
+		nameLen := 1 + g.rng.Intn(60)
+		if g.rng.Intn(6) == 0 {
+			nameLen = 90 + g.rng.Intn(120) // long names: PAX / GNU extension blocks come first
+		}
+		name := make([]byte, nameLen)
+		for j := range name {
+			name[j] = "abcdefghijklmnopqrstuvwxyz0123456789-_./"[g.rng.Intn(40)]
+		}
+		if g.rng.Intn(5) == 0 {
+			name = append(name, []byte("\xc3\xa9\xe2\x82\xac")...)
+		}
+		types := []byte{vtar.TypeReg, vtar.TypeDir, vtar.TypeSymlink, vtar.TypeLink, vtar.TypeFifo, vtar.TypeChar, vtar.TypeBlock}
+		tf := types[g.rng.Intn(len(types))]
+		size := int64(0)
+		if tf == vtar.TypeReg {
+			size = int64(g.rng.Intn(700))
+		}
+		h := &vtar.Header{
+			Typeflag: tf, Name: string(name), Mode: int64(g.rng.Intn(0o7777)), Uid: g.rng.Intn(1 << 21), Gid: g.rng.Intn(1 << 21),
+			Size: size, ModTime: time.Unix(int64(g.rng.Intn(1<<31)), 0), Uname: "user", Gname: "group",
+			Format: formats[g.rng.Intn(len(formats))],
+		}
+		if tf == vtar.TypeSymlink || tf == vtar.TypeLink {
+			h.Linkname = "target/" + string(name[:1])
+		}
+		if tf == vtar.TypeChar || tf == vtar.TypeBlock {
+			h.Devmajor, h.Devminor = int64(g.rng.Intn(255)), int64(g.rng.Intn(255))
+		}
+		if h.Format == vtar.FormatUSTAR && (len(h.Name) > 99 || g.rng.Intn(5) == 0 && false) {
+			h.Format = vtar.FormatPAX
+		}
+		if err := w.WriteHeader(h); err != nil {
+			// incompatible combination for the chosen format: let the writer choose
+			h.Format = vtar.FormatUnknown
+			if err := w.WriteHeader(h); err != nil {
+				continue
+			}
+		}
+		members++
+		if size > 0 {
+			w.Write(g.bytes(int(size)))
+		}
+	}
+	w.Close()
+	if members == 0 {
+		return nil // only the end-of-archive blocks: not an archive with members
+	}
+	return buf.Bytes()
+}
+
+func (g *vfGen) genC18() {
+	n := g.pick(150, 2000)
+	for i := 0; i < n; i++ {
+		a := g.tarArchive()
+		if len(a) < 512 {
+			continue
+		}
+		for _, lim := range []int{0, 3072, 512, 513} {
+			g.emit(vfOp("tar", "ok", lim, a))
+		}
+		g.emit(vfOp("det", "Tar", a[:512], 0))
+		g.emit(vfOp("det", "Tar", a[:511], 0))
+		// single-byte corruptions of the first block outside the checksum field
+		exhaustive := g.thorough && i < 3
+		if exhaustive {
+			for pos := 0; pos < 512; pos++ {
+				if pos >= 148 && pos < 156 {
+					continue
+				}
+				for v := 0; v < 256; v++ {
+					if byte(v) == a[pos] {
+						continue
+					}
+					c := append([]byte{}, a[:512]...)
+					c[pos] = byte(v)
+					g.emit(vfOp("tar", "bad", 0, c))
+				}
+			}
+		} else {
+			for k := 0; k < g.pick(40, 200); k++ {
+				pos := g.rng.Intn(512)
+				if k%4 == 0 {
+					pos = 500 + g.rng.Intn(12) // trailing padding
+				}
+				if pos >= 148 && pos < 156 {
+					continue
+				}
+				c := append([]byte{}, a...)
+				v := byte(g.rng.Intn(256))
+				if k%3 == 0 {
+					v = c[pos] ^ 0x80 // sign flips exercise the signed checksum
+				}
+				if v == c[pos] {
+					continue
+				}
+				c[pos] = v
+				g.emit(vfOp("tar", "bad", []int{0, 3072, 512}[g.rng.Intn(3)], c))
+			}
+		}
+	}
+	// crafted checksum fields: spaces, NULs, 7/8 digits, signed-sum variants
+	base := make([]byte, 512)
+	copy(base, "file.txt")
+	for i := 100; i < 148; i++ {
+		base[i] = '0'
+	}
+	for _, hi := range []int{0, 3, 40} {
+		b := append([]byte{}, base...)
+		for j := 0; j < hi; j++ {
+			b[200+j] = 0xF0 // high bytes: signed and unsigned sums differ
+		}
+		var us, ss int64
+		for i, c := range b {
+			if i >= 148 && i < 156 {
+				c = ' '
+			}
+			us += int64(c)
+			ss += int64(int8(c))
+		}
+		for _, sum := range []int64{us, ss, us + 1, ss - 1} {
+			if sum < 0 {
+				continue
+			}
+			for _, f := range []string{"%06o\x00 ", "%07o\x00", "%07o ", " %06o\x00", "%6o\x00 ", "%08o", "\x00\x00%06o", "%06o  "} {
+				field := fmt.Sprintf(f, sum)
+				if len(field) != 8 {
+					continue
+				}
+				c := append([]byte{}, b...)
+				copy(c[148:156], field)
+				g.emit(vfOp("det", "Tar", c, 0))
+				g.emit(vfOp("tar", "any", 0, c))
+			}
+		}
+	}
+	// gpkg names are rejected on purpose
+	gp := append([]byte{}, base...)
+	copy(gp, "pkg-1.0/gpkg-1\x00")
+	g.emit(vfOp("det", "Tar", gp, 0))
+}
